@@ -6,6 +6,8 @@ import re
 import numpy as np
 import sympy
 
+from fractions import Fraction as F
+
 import core
 import cparse
 import cppgen
@@ -105,6 +107,11 @@ def run(ctx):
         pts = [gen.gen_point(ctx.rng, d) for _ in range(3)]
         cal = pts[0]["cal"]
         pts = [dict(p, cal=cal) for p in pts]
+        # every point is followed by a NEARBY one (all inputs moved by 2^-22 relative): consecutive evaluations of one block on
+        # almost-equal inputs are ordinary use (a settled filter, a finite-difference probe)
+        eps = 1 + F(1, 2 ** 22)
+        pts = [q for p in pts for q in (p, {"dt": p["dt"] * eps, "cal": cal, "state": {a: v * eps for a, v in p["state"].items()},
+                                            "control": {a: v * eps for a, v in p["control"].items()}})]
         desc = {"def": d.describe()}
         outs = {}
         for cse in (True, False):
@@ -194,6 +201,7 @@ def run(ctx):
                         ctx.fail("cse-on-off:cpp", f"generated C++ output {key} differs with CSE on vs off: {x!r} vs {y!r}", {"unit": i, "key": key})
                         break
     custom_modules(ctx)
+    toggled_on_an_estimator(ctx)
     C02.settle(ctx, drv.run(), pending)
     return core.finish(ctx, audit, NOTE, RULE, PARTIAL)
 
@@ -223,6 +231,37 @@ def custom_modules(ctx):
             a, b = results[(tag, True)], results[(tag, False)]
             if any(not core.close(a[k], b[k], scale=1.0, tol=1e-9) for k in a):
                 ctx.fail("cse-on-off:python:custom-modules", f"modules {tag}: CSE on gives {a}, CSE off gives {b}", {"stream": "custom-python-modules", "modules": tag})
+
+
+def toggled_on_an_estimator(ctx):
+    """turning CSE on or off through the scikit-learn estimator's set_params (on ONE estimator, filtering disabled, data with an
+    outlier row) changes no value of transform"""
+    from props import C16
+    for i in range(2 if ctx.quick else 10):
+        d = gen.tame_definition(ctx.rng, n_state=2, n_control=1, n_sensors=2, max_readings=2)
+        process, sensor = eh.make_noises(ctx.rng, d)
+        width = len(d.control) + sum(len(rd) for rd in d.sensors.values())
+        X = np.array([[float(gen.dyadic(ctx.rng, -1, 1)) for _ in range(width)] for _ in range(4)], dtype=float)
+        X[1, len(d.control):] += 500.0          # a gross outlier row
+        case = {"stream": "set_params-toggle", "def": d.describe(), "X": X.tolist()}
+        ctx.case(case, True); ctx.count("stream=set_params-toggle")
+        try:
+            with fk.quiet():
+                ad = C16.make_adapter(d, process, sensor, {}, None)
+                out = {"as constructed (CSE on)": [np.asarray(ad.transform(X), dtype=float)]}
+                for cse in (True, False, True):
+                    ad.set_params(common_subexpression_elimination=cse)
+                    out.setdefault(cse, []).append(np.asarray(ad.transform(X), dtype=float))
+        except Exception as e:
+            ctx.fail(f"adapter-raises:{fk.exc_kind(e)}", f"set_params / transform raises {e!r}"[:300], case); continue
+        ref = out["as constructed (CSE on)"][0]
+        sc = 1.0 + float(np.max(np.abs(ref)))
+        for cse, arrs in out.items():
+            for a in arrs:
+                if a.shape != ref.shape or float(np.max(np.abs(a - ref))) > 1e-9 * sc:
+                    ctx.fail("cse-on-off:python:estimator", f"after set_params(common_subexpression_elimination={cse}) transform gives {a.tolist()}, "
+                             f"with CSE on it gave {ref.tolist()}", case)
+                    break
 
 
 def replay(ctx, data):
